@@ -183,11 +183,13 @@ ForgetStatic(r) ==
   /\ reg' = [reg EXCEPT ![r] = None]
   /\ UNCHANGED <<buf, heap, known>>
 
-Next ==
+\* states reached through the open finding are not explored further (nothing is demanded of them)
+Step ==
   \/ BufAllocate \/ BufAllocateExact \/ BufFill \/ BufEnsureCapacity \/ BufDrop \/ BufIntoBoxedSlice
   \/ \E r \in Regs : \/ FromWord(r) \/ FromDword(r) \/ FromStaticWords(r) \/ Ones(r) \/ FromBuffer(r)
                      \/ IntoBuffer(r) \/ Neg(r) \/ WithSign(r) \/ Drop(r) \/ ForgetStatic(r)
                      \/ \E s \in Regs : Clone(r, s) \/ CloneFrom(r, s)
+Next == ~known /\ Step
 Spec == Init /\ [][Next]_vars
 
 (* ---- invariants ---- *)
